@@ -17,6 +17,7 @@ sys.path.insert(0, os.path.dirname(os.path.abspath(__file__)))
 from common import *
 
 DIGEST_MOD = 2305843009213693951
+RESET_TREE = False   # set from the probes: does remove_all delete the tree?
 BOX = 16.0
 
 MSG_KINDS = [
@@ -82,6 +83,7 @@ class Ref:
             self.ps = []
             if self.active > 0:
                 self.active = 0
+            self.tree_root = False
             return "lastRemoved"
         if self.nvar:
             return "errMegno"
@@ -109,6 +111,7 @@ class Ref:
         self.ps = []
         self.active = -1
         self.nvar = 0
+        self.tree_root = False
         return "done"
 
     def set_hash(self, idx, h):
@@ -364,6 +367,10 @@ def model_line(op, st_after):
 def shape_of(op, st):
     """classify the call shape (state *before* the call) for the known-finding keys"""
     k = op[0]
+    if k == "add" and st["troot"] and st["N"] == 0:
+        return "F18b:last-particle-removal-keeps-tree"
+    if k == "rmall" and st["troot"]:
+        return "F18a:remove_all-keeps-tree"
     if k not in ("rm", "rmh"):
         return None
     n, nact = st["N"], st["nact"]
@@ -381,12 +388,14 @@ def shape_of(op, st):
     if not valid:
         return None
     if n == 1:
-        return "F4c:last-particle-removal-leaves-N_active-above-N" if nact >= 1 else None
+        if nact >= 1:
+            return "F4c:last-particle-removal-leaves-N_active-above-N"
+        return "F18b:last-particle-removal-keeps-tree" if st["troot"] else None
     if st["nvar"]:
         return None
     if ks and st["troot"]:
         return "F4b:sorted-remove-with-tree-returns-0-after-mutating"
-    if not ks and not st["troot"] and nact == n:
+    if not ks and not st["troot"] and nact >= n:
         return "F4d:unsorted-removal-leaves-N_active-above-N"
     return None
 
@@ -422,6 +431,13 @@ def probe_variant(rebound, c):
     out, _ = s.apply(("rm", 0, 0)); st = s.state()
     res["unsortedClamp"] = (st["nact"] <= st["N"])
     res["F4d"] = dict(out=out, N=st["N"], N_active=st["nact"])
+    # F18: tree simulation, remove the only particle / remove all: is the tree deleted?
+    s = CSim(rebound, dict(base, box=True, tree="collision")); s.apply(("add", 1, 11, 0))
+    out, _ = s.apply(("rm", 0, 0)); t1 = s.state()["troot"]
+    s = CSim(rebound, dict(base, box=True, tree="collision")); s.apply(("add", 1, 11, 0)); s.apply(("add", 2, 12, 0))
+    s.apply(("rmall",)); t2 = s.state()["troot"]
+    res["resetTree"] = (t1 == 0 and t2 == 0)
+    res["F18"] = dict(tree_root_after_last_removal=t1, tree_root_after_remove_all=t2)
     return res
 
 
@@ -503,6 +519,8 @@ class Gen:
                 return ("setactive", r.choice([-1, 0, n, r.randint(0, n), r.randint(0, n)]) if not bad else r.choice([n + 1, -2]))
             return self.add_op(st)
         if x < 0.985:
+            if st["troot"] and not RESET_TREE:
+                return self.add_op(st)       # remove_all keeps the tree (F18a): continuing would be undefined behaviour; see mem_replay
             return ("rmall",)
         if self.cfg["tree"] == "none":
             return ("setnvar", 0 if st["nvar"] else r.choice([1, 2]))
@@ -592,7 +610,8 @@ def run_history(c, rebound, cfg, nops, python_api, stats, lines, expect, meta, h
             want = ref.remove_all()
         got_snap = (st["N"], st["nact"], st["nvar"], bool(st["troot"]), st["ps"])
         ok = (want == out and ref.snapshot() == got_snap)
-        inv_ok = st["N"] <= st["nalloc"] and (st["nact"] == -1 or 0 <= st["nact"] <= st["N"])
+        inv = lambda q: q["N"] <= q["nalloc"] and (q["nact"] == -1 or 0 <= q["nact"] <= q["N"])
+        inv_ok = inv(st) or not inv(before)      # an operation must not *break* the invariants
         if not ok or not inv_ok:
             what = "%s: %s with N=%d N_active=%d tree_root=%d: implementation answered %s and holds N=%d N_active=%d ids=%s; documented behaviour: %s N=%d N_active=%d ids=%s" % (
                 "python API" if python_api else "C API", op, before["N"], before["nact"], before["troot"], out, st["N"], st["nact"],
@@ -637,17 +656,7 @@ def hash_cases(rng, n):
 HARNESS = os.path.join(ROOT, "harness", "c14_ops.c")
 
 
-def asan_replay(c, histories):
-    """run the recorded histories through harness/c14_ops.c linked against an
-    AddressSanitizer+UBSan build of the scratch tree; any report is a violation."""
-    d = build(python_pkg=False, sanitize=True)
-    so = os.path.join(d, "librebound" + SUFFIX)
-    exe = os.path.join(d, "c14_ops")
-    p = subprocess.run(["clang", "-O1", "-g", "-fsanitize=address,undefined", "-fno-omit-frame-pointer", "-w",
-                        "-I", os.path.join(d, "src"), HARNESS, so, "-Wl,-rpath," + d, "-lm", "-lpthread", "-o", exe],
-                       capture_output=True, text=True)
-    if p.returncode != 0:
-        raise Infra("asan harness compile failed: " + p.stderr[:2000])
+def replay_text(histories):
     text = []
     for cfg, hist in histories:
         tree = {"none": 0, "gravity": 1, "collision": 2, "linetree": 3}[cfg["tree"]]
@@ -659,12 +668,40 @@ def asan_replay(c, histories):
                 text.append("add %d %d %s %s %s" % (op[1], op[2], d2h(x), d2h(y), d2h(z)))
             else:
                 text.append(" ".join(str(t) for t in op))
-    env = dict(os.environ, ASAN_OPTIONS="detect_leaks=0:abort_on_error=0:halt_on_error=1", UBSAN_OPTIONS="print_stacktrace=1:halt_on_error=1")
-    q = subprocess.run([exe], input="\n".join(text) + "\nend\n", capture_output=True, text=True, env=env, timeout=1500)
-    lines = q.stdout.splitlines()
-    report = q.stderr
-    bad = q.returncode != 0 or "ERROR: AddressSanitizer" in report or "runtime error" in report
-    return bad, report[-3000:], len(lines), len(text)
+    return text
+
+
+class MemReplay:
+    """histories through harness/c14_ops.c: under valgrind memcheck against the normal scratch build
+    (quick tier) or natively against an ASan+UBSan build of the scratch tree (thorough tier)."""
+
+    def __init__(self, d_plain, sanitize):
+        self.sanitize = sanitize
+        if sanitize:
+            d = build(python_pkg=False, sanitize=True)
+            so = os.path.join(d, "librebound" + SUFFIX)
+            self.exe = os.path.join(d, "c14_ops_asan")
+            p = subprocess.run(["clang", "-O1", "-g", "-fsanitize=address,undefined", "-fno-omit-frame-pointer", "-w",
+                                "-I", os.path.join(d, "src"), HARNESS, so, "-Wl,-rpath," + d, "-lm", "-lpthread", "-o", self.exe],
+                               capture_output=True, text=True)
+            if p.returncode != 0:
+                raise Infra("asan harness compile failed: " + p.stderr[:2000])
+            self.cmd = [self.exe]
+        else:
+            self.exe = compile_harness(d_plain, HARNESS, os.path.join(d_plain, "c14_ops"))
+            self.cmd = ["valgrind", "-q", "--error-exitcode=97", "--errors-for-leak-kinds=none", "--leak-check=no", self.exe]
+
+    def run(self, histories, timeout=1500):
+        text = replay_text(histories)
+        env = dict(os.environ, ASAN_OPTIONS="detect_leaks=0:halt_on_error=1", UBSAN_OPTIONS="print_stacktrace=1:halt_on_error=1")
+        try:
+            q = subprocess.run(self.cmd, input="\n".join(text) + "\nend\n", capture_output=True, text=True, env=env, timeout=timeout)
+        except subprocess.TimeoutExpired:
+            return dict(bad=True, report="timeout", ops=len(text), answers=0, rc=None)
+        rep = q.stderr
+        bad = (q.returncode != 0 or "ERROR: AddressSanitizer" in rep or "runtime error" in rep
+               or "Invalid read" in rep or "Invalid write" in rep or "uninitialised" in rep)
+        return dict(bad=bad, report=rep[-2500:], ops=len(text), answers=len(q.stdout.splitlines()), rc=q.returncode)
 
 
 # ----------------------------------------------------------------------------- main
@@ -691,9 +728,11 @@ def run(c):
 
     # ---- which F4 repairs does the source under test contain?  (replays the model's counter-examples)
     pv = probe_variant(rebound, c)
-    c.cov["variant_detected"] = {k: pv[k] for k in ("rangeFirst", "treeFirst", "lastClamp", "unsortedClamp")}
-    c.cov["witness_replays"] = {k: pv[k] for k in ("F4a", "F4b", "F4c", "F4d")}
-    vline = "variant %d %d %d %d" % (pv["rangeFirst"], pv["treeFirst"], pv["lastClamp"], pv["unsortedClamp"])
+    c.cov["variant_detected"] = {k: pv[k] for k in ("rangeFirst", "treeFirst", "lastClamp", "unsortedClamp", "resetTree")}
+    c.cov["witness_replays"] = {k: pv[k] for k in ("F4a", "F4b", "F4c", "F4d", "F18")}
+    vline = "variant %d %d %d %d %d" % (pv["rangeFirst"], pv["treeFirst"], pv["lastClamp"], pv["unsortedClamp"], pv["resetTree"])
+    global RESET_TREE
+    RESET_TREE = pv["resetTree"]
     c.log("source variant:", c.cov["variant_detected"])
 
     ok = c.prove(["RV.Props.C14"])
@@ -844,16 +883,30 @@ def run(c):
         o = stats["odd_outs"][0]
         c.violation("C14:unexpected-message:%s" % o[0].split(":")[0], "operation %s with N=%d produced %s" % (o[1], o[2], o[0]), {"op": o[1]})
 
-    # ---- thorough: the same histories under ASan + UBSan
-    if c.thorough:
-        try:
-            bad, report, nout, nin = asan_replay(c, histories)
-            c.cov["asan"] = {"ops_replayed": nin, "answers": nout, "clean": not bad}
-            if bad:
-                c.violation("C14:asan", "AddressSanitizer/UBSan report while replaying the histories: " + report[-600:], {"report": report})
-        except Infra as e:
-            c.cov["asan"] = {"error": str(e)[:500]}
-            c.broken.append("asan replay could not run: " + str(e)[:300])
+    # ---- memory: the histories replayed through a C harness under valgrind (quick) / ASan+UBSan (thorough)
+    try:
+        mr = MemReplay(d, sanitize=c.thorough)
+        sel = histories if c.thorough else histories[:25]
+        sel = sel + [(cfg, ops) for cfg, ops in directed]
+        res = mr.run(sel)
+        c.cov["memory_replay"] = {"tool": "asan+ubsan" if c.thorough else "valgrind memcheck", "histories": len(sel),
+                                  "ops_replayed": res["ops"], "answers": res["answers"], "clean": not res["bad"]}
+        c.count(("memreplay", c.thorough), n=res["answers"])
+        if res["bad"]:
+            c.violation("C14:memory", "memory error while replaying recorded histories (%s): %s" % (
+                c.cov["memory_replay"]["tool"], res["report"][-500:]), {"report": res["report"], "histories": sel[:3]})
+        # F18a witness: remove_all on a tree simulation, then add (kept out of the histories above on purpose)
+        wcfg = dict(tree="collision", box=True, boundary="none", integrator="ias15")
+        wops = [("add", i, 1000 + i, 0) for i in range(1, 301)] + [("rmall",)] + [("add", 1000 + i, 5000 + i, 0) for i in range(1, 41)]
+        res = mr.run([(wcfg, wops)], timeout=300)
+        c.cov["memory_replay_remove_all_tree_witness"] = {"clean": not res["bad"], "answers": res["answers"]}
+        if res["bad"]:
+            c.violation("F18a:remove_all-keeps-tree", "300 particles in a collision-tree simulation, reb_simulation_remove_all_particles, then add: "
+                        "the tree still refers to the freed particle array and reb_tree_add_particle_to_cell reads/writes outside the particle storage: "
+                        + res["report"][:300].replace("\n", " | "), {"cfg": wcfg, "ops": "add x300, rmall, add x40", "report": res["report"]})
+    except Infra as e:
+        c.cov["memory_replay"] = {"error": str(e)[:500]}
+        c.broken.append("memory replay could not run: " + str(e)[:300])
 
 
 if __name__ == "__main__":
